@@ -113,6 +113,12 @@ func (r *rbcModel) isAckDigest(v ssa.Value) bool {
 func (r *rbcModel) receptionKeyOf(v ssa.Value) ssa.Value {
 	v = strip(v)
 	for i := 0; i < 8 && v != nil; i++ {
+		if i > 0 {
+			// a helper working on the entry it is given: the entry its caller passes
+			if _, isP := v.(*ssa.Parameter); isP {
+				v = strip(v)
+			}
+		}
 		switch x := v.(type) {
 		case *ssa.UnOp:
 			if x.Op != token.MUL {
@@ -125,6 +131,13 @@ func (r *rbcModel) receptionKeyOf(v ssa.Value) ssa.Value {
 			v = x.X
 		case *ssa.Extract:
 			v = x.Tuple
+		case *ssa.Call:
+			// entry := r.entryOf(key): a get-or-create helper — what it returns
+			rv := resultOf(x)
+			if rv == ssa.Value(x) {
+				return nil
+			}
+			v = rv
 		case *ssa.Lookup:
 			if isLoadOfField(x.X, r.fReception) {
 				return x.Index
